@@ -3,6 +3,7 @@ package main
 import (
 	"encoding/json"
 	"fmt"
+	"math/bits"
 	"os"
 	"path/filepath"
 	"sort"
@@ -41,12 +42,18 @@ type gspec struct {
 
 var vnames = []string{"ta", "tb", "tc", "td", "te", "tf", "tg", "th"}
 
-func maskGraph(n int, mask uint32) gspec {
-	g := gspec{Names: vnames[:n], Deps: make([][]string, n)}
+// pnames are task names that are prefixes of one another, so that two different
+// (dependency, task) pairs can concatenate to the same text.
+var pnames = []string{"t", "tt", "ttt", "tttt"}
+
+func maskGraph(n int, mask uint32) gspec { return maskGraphNames(n, mask, vnames) }
+
+func maskGraphNames(n int, mask uint32, names []string) gspec {
+	g := gspec{Names: names[:n], Deps: make([][]string, n)}
 	for i := 0; i < n; i++ {
 		for j := 0; j < n; j++ {
 			if mask&(1<<(i*n+j)) != 0 {
-				g.Deps[i] = append(g.Deps[i], vnames[j])
+				g.Deps[i] = append(g.Deps[i], names[j])
 			}
 		}
 	}
@@ -105,6 +112,20 @@ func c03Specs(tier string) []gspec {
 			}
 			g := maskGraph(n, m)
 			g.Twins, g.ReqMaxLen, g.ReqRepeat, g.OrderBound, g.Family = true, 2, false, 1, "file-spelled-like-task"
+			out = append(out, g)
+		}
+	}
+	// task names that are prefixes of one another
+	for n := 2; n <= 4; n++ {
+		for m := uint32(0); m < 1<<(n*n); m++ {
+			if n == 4 && bits.OnesCount32(m) != 2 && tier != "thorough" {
+				continue // four tasks: every graph with exactly two edges
+			}
+			if n == 4 && bits.OnesCount32(m) > 3 {
+				continue
+			}
+			g := maskGraphNames(n, m, pnames)
+			g.ReqMaxLen, g.ReqRepeat, g.OrderBound, g.Family = 2, false, -1, "names-prefix-of-each-other"
 			out = append(out, g)
 		}
 	}
